@@ -42,6 +42,10 @@ func PrintAfterRenames(x string, seed uint64) (y0, y string, stats map[string]in
 	if pe := lx.Guard(func() { stats = apiedit.RenameLocals(seed, m) }); pe != nil {
 		return y0, "", nil, Outcome{V: Violation, Class: "rename_panics", Msg: "renaming locals of a parsed module through SetName panics: " + pe.String()}
 	}
+	// the result-type caches of half of the instructions are emptied as well (the type is computed again on demand)
+	if stats != nil {
+		stats["result-type caches emptied"] = apiedit.ClearResultTypes(seed, m)
+	}
 	y, pp = lx.Print(m)
 	if pp != nil {
 		return y0, "", stats, Outcome{V: Violation, Class: "print_panic_after_rename", Msg: "printing after locals were renamed through the API panics: " + pp.String()}
